@@ -243,6 +243,26 @@ pub fn generate(tier: &str, seed: u64, shard: u64, nshards: u64, path: &str) -> 
             }
             cases += 20;
         }
+        // what failed conversions leave behind on this thread must not matter: 300 undecodable nested bodies first
+        for i in 0..300usize {
+            let mut junk: Vec<u8> = vec![2, 0, 1, b'c', 0, 0, 0, 0, 0, 0, 0, 0, 0];
+            for _ in 0..(1 + i % 120) { junk.extend_from_slice(if i % 2 == 0 { &[3, 0, 1, b'a'] } else { &[10, 0, 0, 0, 1] }); }
+            if i % 3 == 0 { junk.push(0xFF); }
+            let p = MessagePayload { timestamp: RtmpTimestamp::new(1), type_id: if i % 2 == 0 { 20 } else { 18 }, message_stream_id: 1, data: Bytes::from(junk) };
+            let _ = catch_unwind(AssertUnwindSafe(|| p.to_rtmp_message()));
+        }
+        // property names and strings of every length class 2^k - 1, 2^k, 2^k + 1 inside command and data bodies
+        for k in 1..=10u32 {
+            for d in [-1i64, 0, 1].iter() {
+                let l = ((1i64 << k) + d) as usize;
+                let mut p = std::collections::HashMap::new();
+                p.insert("n".repeat(l), Amf0Value::Utf8String("s".repeat(l)));
+                p.insert("tail".to_string(), Amf0Value::StrictArray(vec![]));
+                t.emit(&to_payload_event(RtmpMessage::Amf0Data { values: vec![Amf0Value::Utf8String("onMetaData".into()), Amf0Value::Object(p.clone()), Amf0Value::StrictArray(vec![]), Amf0Value::Number(12.5), Amf0Value::Boolean(true)] }, &mut rng));
+                t.emit(&to_payload_event(RtmpMessage::Amf0Command { command_name: "c".repeat(l), transaction_id: l as f64, command_object: Amf0Value::Object(p), additional_arguments: vec![Amf0Value::StrictArray(vec![]), Amf0Value::Null] }, &mut rng));
+                cases += 2;
+            }
+        }
         // a refused message (a value the format cannot express AFTER values it can) must leave nothing behind: the messages
         // converted next on the same thread carry exactly their own bodies
         for round in 0..3 {
